@@ -192,6 +192,48 @@ def routing_file(tr, status):
     return "\n".join(lines) + "\n" if ok else "(* signature extraction failed: " + detail + " *)\n"
 
 
+def composite_file(tr, status):
+    """Stage order of CompositeTransform.forward / inverse / fit and the way the stage log-Jacobians are accumulated,
+    read from the method bodies."""
+    import ast
+    names = {"_periodic_transform": "SPeriodic", "_bounded_transform": "SBounded", "_affine_transform": "SAffine"}
+    out = {}
+    ok, detail = True, ""
+    try:
+        for meth in ("forward", "inverse", "fit"):
+            m = tr.find_method("transforms", "CompositeTransform", meth)
+            order, accum = [], []
+            for node in ast.walk(m[1]):
+                pass
+            for st in m[1].body:
+                for node in ast.walk(st):
+                    if isinstance(node, ast.Call) and isinstance(node.func, ast.Attribute) and node.func.attr == meth \
+                            and isinstance(node.func.value, ast.Attribute) and node.func.value.attr in names:
+                        order.append((node.lineno, node.col_offset, names[node.func.value.attr]))
+                    if isinstance(node, ast.AugAssign) and isinstance(node.target, ast.Name) and node.target.id == "log_abs_det_jacobian":
+                        accum.append(isinstance(node.op, ast.Add))
+            order = [n for _, _, n in sorted(order)]
+            if sorted(order) != sorted(names.values()):
+                raise Untranslatable(f"CompositeTransform.{meth}: stages found {order}")
+            if meth != "fit" and (len(accum) != 3 or not all(accum)):
+                raise Untranslatable(f"CompositeTransform.{meth}: log-Jacobian accumulation is not three `+=`")
+            out[meth] = order
+    except Exception as e:
+        ok, detail = False, repr(e)
+    status["composite_order"] = (ok, detail)
+    if not ok:
+        return "(* extraction failed: " + detail + " *)\n"
+    f = lambda l: "[" + "; ".join(l) + "]"
+    return ("(* GENERATED on every run by /verif/tools/translate.py from CompositeTransform.{forward,inverse,fit}. Do not edit. *)\n"
+            "From Coq Require Import List.\nImport ListNotations.\n"
+            "Inductive stage := SPeriodic | SBounded | SAffine.\n"
+            f"Definition forward_order : list stage := {f(out['forward'])}.\n"
+            f"Definition inverse_order : list stage := {f(out['inverse'])}.\n"
+            f"Definition fit_order : list stage := {f(out['fit'])}.\n"
+            "(* every stage log-Jacobian is added to the running total with `+=` in both directions *)\n"
+            "Definition accumulates_by_addition : bool := true.\n")
+
+
 TRANSFORMS_HEADER = """(* GENERATED on every run by /verif/tools/translate.py from /repo/src/aspire/transforms.py (working tree). Do not edit.
    Per-row convention: x / y are ONE row (a list over the coordinates the transform acts on); `.sum(-1)` is the sum over
    coordinates; erf / erfinv are the scipy special functions (Section variables of the proofs). *)
@@ -338,6 +380,7 @@ def build(tr, status):
     files["Transforms.v"] = TRANSFORMS_HEADER + "\n" + body4 + "\nEnd Transforms.\n"
     files["transforms_ir.json"] = json.dumps({"ir": ir4, "meta": meta4}, indent=0, default=str)
     files["Routing.v"] = routing_file(tr, status)
+    files["Composite.v"] = composite_file(tr, status)
     ir2, meta2 = {}, {}
     body2 = run_calls(tr, calls_targets(), status, ir2, meta2)
     files["Calls.v"] = CALLS_HEADER + "\n" + body2 + "\nEnd Calls.\n"
